@@ -218,7 +218,7 @@ fn spans(e: &str) -> String {
     match Glob::new(e) {
         Err(err) => {
             let v: Vec<String> = err.locations().map(|l| slice(l.span().0, l.span().1)).collect();
-            format!("err [{}]", v.join(","))
+            format!("err [{}]{}", v.join(","), other_routes(e))
         },
         Ok(g) => {
             let v: Vec<String> = g.captures().map(|c| slice(c.span().0, c.span().1)).collect();
@@ -237,9 +237,26 @@ fn spans(e: &str) -> String {
                     format!("{}[{}]", hex(&shown), v.join(","))
                 },
             };
-            format!("ok [{}] post={}", v.join(","), pv)
+            format!("ok [{}] post={}{}", v.join(","), pv, other_routes(e))
         },
     }
+}
+
+/// the spans reported when the SAME string is built through FromStr and TryFrom (they index the caller's string)
+fn other_routes(e: &str) -> String {
+    let show = |r: Result<Glob<'_>, wax::BuildError>| -> String {
+        match r {
+            Err(err) => format!("err[{}]", err.locations().map(|l| format!("{}+{}", l.span().0, l.span().1)).collect::<Vec<_>>().join(",")),
+            Ok(g) => format!("ok[{}]", g.captures().map(|c| format!("{}+{}", c.span().0, c.span().1)).collect::<Vec<_>>().join(",")),
+        }
+    };
+    let by_new = show(Glob::new(e));
+    let by_str = show(Glob::from_str(e));
+    let by_try = show(Glob::try_from(e));
+    format!(
+        " routes={}",
+        if by_new == by_str && by_new == by_try { "same".to_string() } else { format!("DIFF<new:{}|from-str:{}|try-from:{}>", by_new, by_str, by_try) }
+    )
 }
 
 fn partition(e: &str) -> String {
@@ -413,6 +430,15 @@ fn totality(e: &str, paths: &[String]) -> String {
         if let Ok(a) = wax::any([e, e]) {
             let _ = (a.depth(), a.text(), a.has_root(), a.is_exhaustive());
         }
+    });
+    op("any-empty", &mut || {
+        // a combinator of no patterns, alone and inside other combinators
+        let none = wax::any(Vec::<&str>::new());
+        if let Ok(a) = &none {
+            let _ = (a.is_match(""), a.depth(), a.text(), a.has_root(), a.is_exhaustive());
+        }
+        let _ = wax::any([wax::any(Vec::<&str>::new())]).map(|a| (a.is_match("a"), a.depth(), a.is_exhaustive()));
+        let _ = wax::any([wax::any(Vec::<&str>::new()), wax::any([e])]).map(|a| (a.is_match("a"), a.depth(), a.text(), a.has_root(), a.is_exhaustive()));
     });
     op("any-compiled", &mut || {
         if let Ok(a) = wax::any([g.clone()]) {
